@@ -42,6 +42,9 @@ func (args RPCRequestArgs) Destination() string {
 func (c *ClusterNode) internalRoute(remoteFn string, args Destinationer, reply any) error {
 	destination := args.Destination()
 	c.logger.Debug().Str("destination", destination).Msg(remoteFn + ": routing")
+	if err := verifFault("route:"+destination, 0); err != nil {
+		return err
+	}
 	// ---------------------------
 	startTime := time.Now()
 	defer func() {
